@@ -30,6 +30,75 @@ type verifStreamScn struct {
 	Gap     int    `json:"gap"`
 	Reps    int    `json:"reps"`
 	RT      int    `json:"rt"` // read_timeout of this scenario's stack in ms (0: the default)
+	Route   string `json:"route"`
+	Shape   string `json:"shape"`
+	Rsp     int    `json:"rsp"` // response_timeout of this scenario's stack in ms (0: 30 s)
+}
+
+// verifStreamTranslatedChunks: an OpenAI stream, one chunk per event, and for each chunk the marker the client
+// must have seen (in the translated Anthropic stream) before the NEXT chunk is released ("" = none).
+func verifStreamTranslatedChunks(shape string) (chunks [][]byte, markers []string) {
+	ev := func(delta, finish string) []byte {
+		return []byte(fmt.Sprintf("data: {\"id\":\"c1\",\"object\":\"chat.completion.chunk\",\"model\":\"m1\",\"choices\":[{\"index\":0,\"delta\":%s,\"finish_reason\":%s}]}\n\n", delta, finish))
+	}
+	add := func(b []byte, m string) { chunks = append(chunks, b); markers = append(markers, m) }
+	add(ev(`{"role":"assistant","content":""}`, "null"), "")
+	add(ev(`{"content":"alphaA "}`, "null"), "alphaA")
+	if shape == "tool" {
+		add(ev(`{"tool_calls":[{"index":0,"id":"call_1","type":"function","function":{"name":"get_weather","arguments":""}}]}`, "null"), "get_weather")
+		add(ev(`{"tool_calls":[{"index":0,"function":{"arguments":"{\"city\": \"betaB"}}]}`, "null"), "betaB")
+		add(ev(`{"tool_calls":[{"index":0,"function":{"arguments":" gammaC"}}]}`, "null"), "gammaC")
+		add(ev(`{"tool_calls":[{"index":0,"function":{"arguments":" deltaD\"}"}}]}`, "null"), "deltaD")
+		add(ev(`{}`, `"tool_calls"`), "")
+	} else {
+		add(ev(`{"content":"betaB "}`, "null"), "betaB")
+		add(ev(`{"content":"gammaC "}`, "null"), "gammaC")
+		add(ev(`{"content":"deltaD"}`, "null"), "deltaD")
+		add(ev(`{}`, `"stop"`), "")
+	}
+	add([]byte("data: [DONE]\n\n"), "")
+	return chunks, markers
+}
+
+// verifStreamSSE is an OpenAI chat-completion stream cut into one chunk per event (n content deltas).
+func verifStreamSSE(n int) [][]byte {
+	out := make([][]byte, 0, n+2)
+	for i := 0; i < n; i++ {
+		out = append(out, []byte(fmt.Sprintf("data: {\"id\":\"c1\",\"object\":\"chat.completion.chunk\",\"model\":\"m1\",\"choices\":[{\"index\":0,\"delta\":{\"content\":\"w%d \"},\"finish_reason\":null}]}\n\n", i)))
+	}
+	out = append(out, []byte("data: {\"id\":\"c1\",\"object\":\"chat.completion.chunk\",\"model\":\"m1\",\"choices\":[{\"index\":0,\"delta\":{},\"finish_reason\":\"stop\"}]}\n\n"))
+	out = append(out, []byte("data: [DONE]\n\n"))
+	return out
+}
+
+// verifStreamAbortPlan: what the backend does in an abort / leak scenario.
+func verifStreamAbortPlan(sc verifStreamScn) zzverif.Plan {
+	if sc.At == "prehdr" {
+		return zzverif.Plan{Kind: "stall_pre"}
+	}
+	k := 0
+	if sc.At == "chunk1" {
+		k = 1
+	}
+	p := zzverif.Plan{Kind: "stall_after", Status: 200, Chunked: true, CT: sc.CT, N: 3, K: k}
+	if sc.At == "flowing" {
+		// keeps sending for ~3 s: whenever the client goes away, the proxy holds a chunk it wants to deliver
+		p = zzverif.Plan{Kind: "ok", Status: 200, Chunked: true, CT: sc.CT, N: 20000}
+	}
+	if sc.Route == "anthropic" {
+		p.CT = "text/event-stream"
+		p.Chunks = verifStreamSSE(p.N)
+	}
+	return p
+}
+
+func verifStreamReqFor(sc verifStreamScn, id string) *zzverif.Req {
+	if sc.Route != "anthropic" {
+		return verifStreamReq(id)
+	}
+	body := fmt.Sprintf(`{"model":"m1","max_tokens":64,"stream":true,"messages":[{"role":"user","content":"%s"}]}`, id)
+	return &zzverif.Req{Method: "POST", Target: "/olla/anthropic/v1/messages",
+		Headers: []string{"Content-Type: application/json", "anthropic-version: 2023-06-01", "X-Verif-Req: " + id}, Body: []byte(body), Timeout: 12 * time.Second}
 }
 
 func (sc verifStreamScn) rt() int {
@@ -45,6 +114,9 @@ func verifStreamBoot(sc verifStreamScn) (*verifStack, error) {
 	return verifBoot(sc.Engine, "priority", sc.Profile, []verifEndpointOpt{{Models: []string{"m1"}}}, func(c *config.Config) {
 		c.Proxy.ReadTimeout = time.Duration(sc.rt()) * time.Millisecond
 		c.Proxy.ResponseTimeout = 30 * time.Second
+		if sc.Rsp > 0 {
+			c.Proxy.ResponseTimeout = time.Duration(sc.Rsp) * time.Millisecond
+		}
 	})
 }
 
@@ -124,24 +196,62 @@ func TestVerif_Stream(t *testing.T) {
 			kv := append([]any{"n", sc.N, "chunk", sc.Chunk, "seen", len(res.Body) / sc.Chunk, "stuck", stuck.Load(), "complete", res.Complete,
 				"whole", got == want, "ms", res.Elapsed.Milliseconds(), "st", res.Status, "gated", gated}, base...)
 			b.Emit("Flow", kv...)
-		case "stall", "abort":
-			k := 0
-			if sc.At == "chunk1" {
-				k = 1
-			}
-			var upstreamClosedAt atomic.Int64
-			be.OnAttempt = func(r *zzverif.Recv) zzverif.Plan {
-				if sc.At == "prehdr" {
-					return zzverif.Plan{Kind: "stall_pre"}
+		case "tflow":
+			chunks, markers := verifStreamTranslatedChunks(sc.Shape)
+			var seenMu sync.Mutex
+			seenSoFar := map[string]bool{}
+			has := func(m string) bool { seenMu.Lock(); defer seenMu.Unlock(); return seenSoFar[m] }
+			var stuck atomic.Bool
+			var passed atomic.Int64 // gates passed because the client had seen the previous chunk's event
+			gates := 0
+			for _, m := range markers[:len(markers)-1] {
+				if m != "" {
+					gates++
 				}
-				return zzverif.Plan{Kind: "stall_after", Status: 200, Chunked: true, CT: sc.CT, N: 3, K: k}
 			}
+			be.OnAttempt = func(r *zzverif.Recv) zzverif.Plan {
+				return zzverif.Plan{Kind: "ok", Status: 200, Chunked: true, CT: "text/event-stream", Chunks: chunks, Gate: func(i int) {
+					if i == 0 || markers[i-1] == "" {
+						return
+					}
+					dl := time.Now().Add(3 * time.Second)
+					for !has(markers[i-1]) {
+						if time.Now().After(dl) {
+							stuck.Store(true)
+							return
+						}
+						time.Sleep(time.Millisecond)
+					}
+					passed.Add(1)
+				}}
+			}
+			rq := verifStreamReqFor(sc, id)
+			rq.OnData = func(sofar []byte) {
+				seenMu.Lock()
+				for _, m := range markers {
+					if m != "" && !seenSoFar[m] && bytes.Contains(sofar, []byte(m)) {
+						seenSoFar[m] = true
+					}
+				}
+				seenMu.Unlock()
+			}
+			res := zzverif.Do(stk.addr, rq)
+			whole := bytes.Contains(res.Body, []byte("message_stop"))
+			for _, m := range markers {
+				whole = whole && (m == "" || bytes.Contains(res.Body, []byte(m)))
+			}
+			kv := append([]any{"n", gates, "seen", passed.Load(), "stuck", stuck.Load(), "complete", res.Complete, "whole", whole,
+				"ms", res.Elapsed.Milliseconds(), "st", res.Status, "gated", true, "route", sc.Route, "shape", sc.Shape}, base...)
+			b.Emit("Flow", kv...)
+		case "stall", "abort":
+			var upstreamClosedAt atomic.Int64
+			be.OnAttempt = func(r *zzverif.Recv) zzverif.Plan { return verifStreamAbortPlan(sc) }
 			be.OnDone = func(r *zzverif.Recv, p zzverif.Plan, wrote int, peerGone bool) {
 				if peerGone {
 					upstreamClosedAt.Store(time.Now().UnixMilli())
 				}
 			}
-			rq := verifStreamReq(id)
+			rq := verifStreamReqFor(sc, id)
 			if sc.Kind == "stall" {
 				res := zzverif.Do(stk.addr, rq)
 				ended := res.Elapsed < 11*time.Second
@@ -151,7 +261,7 @@ func TestVerif_Stream(t *testing.T) {
 			}
 			// abort: the client goes away 200 ms into the stall
 			rq.Timeout = 200 * time.Millisecond
-			if k == 1 {
+			if sc.At == "chunk1" || sc.At == "flowing" {
 				rq.AbortAfter = 1
 				rq.Timeout = 2 * time.Second
 			}
@@ -169,7 +279,7 @@ func TestVerif_Stream(t *testing.T) {
 					ms = 0
 				}
 			}
-			kv := append([]any{"at", sc.At, "upstreamClosed", closed != 0, "ms", ms}, base...)
+			kv := append([]any{"at", sc.At, "route", sc.Route, "upstreamClosed", closed != 0, "ms", ms}, base...)
 			b.Emit("Abort", kv...)
 		case "pause":
 			be.OnAttempt = func(r *zzverif.Recv) zzverif.Plan {
@@ -191,14 +301,12 @@ func TestVerif_Stream(t *testing.T) {
 			res := zzverif.Do(stk.addr, verifStreamReq(id))
 			runs, junk := zzverif.Attribute(res.Body)
 			whole := junk == 0 && len(runs) == 1 && runs[0].N == 3
-			kv := append([]any{"gap", sc.Gap, "complete", res.Complete, "whole", whole, "ms", res.Elapsed.Milliseconds()}, base...)
+			kv := append([]any{"gap", sc.Gap, "rsp", sc.Rsp, "complete", res.Complete, "whole", whole, "ms", res.Elapsed.Milliseconds()}, base...)
 			b.Emit("Pause", kv...)
 		case "leak":
-			be.OnAttempt = func(r *zzverif.Recv) zzverif.Plan {
-				return zzverif.Plan{Kind: "stall_after", Status: 200, Chunked: true, CT: sc.CT, N: 3, K: 1}
-			}
+			be.OnAttempt = func(r *zzverif.Recv) zzverif.Plan { return verifStreamAbortPlan(sc) }
 			once := func(i int) {
-				rq := verifStreamReq(fmt.Sprintf("%s-%d", id, i))
+				rq := verifStreamReqFor(sc, fmt.Sprintf("%s-%d", id, i))
 				rq.AbortAfter = 1
 				rq.Timeout = 2 * time.Second
 				zzverif.Do(stk.addr, rq)
@@ -220,7 +328,7 @@ func TestVerif_Stream(t *testing.T) {
 				once(i)
 			}
 			after := settle()
-			kv := append([]any{"reps", sc.Reps, "before", before, "after", after}, base...)
+			kv := append([]any{"reps", sc.Reps, "at", sc.At, "route", sc.Route, "before", before, "after", after}, base...)
 			b.Emit("Leak", kv...)
 		}
 	})
